@@ -30,6 +30,11 @@ TABLE = {
     "C04": ("model_checking", "E1 SymObj",
             "Symbolic execution of the four align_* functions on tuples of 1-4 operands (polynomials, numbers, arrays): outputs model-equal to inputs (broadcast), common shape / ordered name "
             "union / exponent rows and keys, idempotence, arguments unmodified.", E1_NOTE, E1_TECH),
+    "C05": ("model_checking", "E1 SymObj",
+            "Symbolic execution of poly_divmod and the / % divmod operators (incl. reflected) with rational symbolic coefficients of dividend and divisor: on every path the identity "
+            "dividend == q*divisor + r, the constant-divisor, exact-multiple (symbolic cofactor) and univariate-degree clauses are proved over Q; termination is decided with an unwinding "
+            "assertion on the loop (harness-side observation of get_division_candidate) whose failure is replayed natively with a 400-iteration / 20 s guard.",
+            E1_NOTE + " Assumption A-tiny: symbolic values are 0 or >= 1e-20 in magnitude (so the 1e-30 cut-off compares like 0).", E1_TECH + "; unwinding assertion for termination"),
     "C06": ("model_checking", "E1 SymObj",
             "Symbolic execution of derivative/gradient/hessian with symbolic coefficients under all 16 retain_*/sort_* option settings and all variable designations (name, index, "
             "indeterminate, several variables); compared with the model's formal derivative; shapes (D,)+shape and (D,D)+shape.", E1_NOTE, E1_TECH),
